@@ -568,58 +568,82 @@ func ruleVD7(c *Ctx) {
 	}
 	// counter increment: remaining[task.EpicID]++ for every non-eligible non-epic child: guarded only by !IsEpic, not-eligible lookup, EpicID != ""
 	incOK := false
-	eachInstr(sp, func(r instrRef) {
-		mu, ok := r.In.(*ssa.MapUpdate)
-		if !ok || mu.Value.Type().String() != "int" {
-			return
+	isEligibleMap := func(v ssa.Value) bool {
+		if eligibleMap == nil {
+			return false
 		}
-		if _, n, ok := fieldLoad(mu.Key); !ok || n != "EpicID" {
-			return
+		rv := resolve(v)
+		if rv == resolve(eligibleMap) {
+			return true
 		}
-		// conditions on the path: collect atoms of dominating branch edges
-		allowed := true
-		for _, bf := range branchFacts(sp) {
-			curEnv = bf.A.Env
-			if !(bf.E.To() == r.Blk || bf.E.To().Dominates(r.Blk)) || len(bf.E.To().Preds) != 1 {
-				continue
+		if prm, ok := rv.(*ssa.Parameter); ok {
+			args := c.argValues(prm.Parent(), paramIndex(prm))
+			if len(args) == 0 {
+				return false
 			}
-			if bf.E.From.Dominates(r.Blk) == false {
-				continue
+			for _, a := range args {
+				if resolve(a) != resolve(eligibleMap) {
+					return false
+				}
 			}
-			// only conditions evaluated per item: the branch lies in the same loop as the increment
-			if !(reach(bf.E.From, nil, nil)[r.Blk] && reach(r.Blk, nil, nil)[bf.E.From]) {
-				continue
+			return true
+		}
+		return false
+	}
+	for _, sp := range c.unitOf(sp) {
+		eachInstr(sp, func(r instrRef) {
+			mu, ok := r.In.(*ssa.MapUpdate)
+			if !ok || mu.Value.Type().String() != "int" {
+				return
 			}
-			desc := ""
-			switch bf.A.Kind {
-			case "bool":
-				if _, n, ok := fieldLoad(bf.A.X); ok && n == "IsEpic" && !bf.Holds {
+			if _, n, ok := fieldLoad(mu.Key); !ok || n != "EpicID" {
+				return
+			}
+			// conditions on the path: collect atoms of dominating branch edges
+			allowed := true
+			for _, bf := range branchFacts(sp) {
+				curEnv = bf.A.Env
+				if !(bf.E.To() == r.Blk || bf.E.To().Dominates(r.Blk)) || len(bf.E.To().Preds) != 1 {
 					continue
 				}
-				if ex, ok := strip(bf.A.X).(*ssa.Extract); ok {
-					if lk, ok := ex.Tuple.(*ssa.Lookup); ok && eligibleMap != nil && resolve(lk.X) == resolve(eligibleMap) && !bf.Holds {
+				if bf.E.From.Dominates(r.Blk) == false {
+					continue
+				}
+				// only conditions evaluated per item: the branch lies in the same loop as the increment
+				if !(reach(bf.E.From, nil, nil)[r.Blk] && reach(r.Blk, nil, nil)[bf.E.From]) {
+					continue
+				}
+				desc := ""
+				switch bf.A.Kind {
+				case "bool":
+					if _, n, ok := fieldLoad(bf.A.X); ok && n == "IsEpic" && !bf.Holds {
 						continue
 					}
-					if _, ok := ex.Tuple.(*ssa.Next); ok {
-						continue // range loop condition
+					if ex, ok := strip(bf.A.X).(*ssa.Extract); ok {
+						if lk, ok := ex.Tuple.(*ssa.Lookup); ok && isEligibleMap(lk.X) && !bf.Holds {
+							continue
+						}
+						if _, ok := ex.Tuple.(*ssa.Next); ok {
+							continue // range loop condition
+						}
 					}
+					desc = c.canon(bf.A.X)
+				case "const":
+					if _, n, ok := fieldLoad(bf.A.X); ok && n == "EpicID" && constStr(bf.A.C) == "" && !bf.Holds {
+						continue
+					}
+					desc = c.canon(bf.A.X) + "==" + bf.A.C.String()
+				default:
+					desc = bf.A.Kind
 				}
-				desc = c.canon(bf.A.X)
-			case "const":
-				if _, n, ok := fieldLoad(bf.A.X); ok && n == "EpicID" && constStr(bf.A.C) == "" && !bf.Holds {
-					continue
-				}
-				desc = c.canon(bf.A.X) + "==" + bf.A.C.String()
-			default:
-				desc = bf.A.Kind
+				allowed = false
+				_ = desc
 			}
-			allowed = false
-			_ = desc
-		}
-		if allowed {
-			incOK = true
-		}
-	})
+			if allowed {
+				incOK = true
+			}
+		})
+	}
 	c.check(incOK, fn, "remaining-children-counter", c.FnPos(sp), "every non-epic, non-eligible task with an epic increments its epic's remaining-children counter",
 		"the remaining-children counter is incremented under extra conditions (or not at all): an epic with a live child can be counted as childless")
 	_ = epicMap
